@@ -79,10 +79,24 @@ def body_len(rsizes):
     return 32 * (sum(rsizes) + rings - 1) + 32 + sign_bytes(rings)
 
 
+_HMUL = {}
+
+
+def hmul(k, H):
+    """k*H, memoised (the same few multiples of the generator recur for every mutation of one proof)"""
+    key = (k, H)
+    v = _HMUL.get(key)
+    if v is None:
+        if len(_HMUL) > 256:
+            _HMUL.clear()
+        v = _HMUL[key] = (ec.mul(k, H),)
+    return v[0]
+
+
 def ring_keys(first, rsizes, scale, H):
     """first[i] = P_{i,0}; P_{i,j} = P_{i,0} - j * scale * 4^i * H  (flat list)"""
     pubs = []
-    step = ec.neg(ec.mul(scale, H))               # -scale * 4^i * H, quadrupled from ring to ring
+    step = ec.neg(hmul(scale, H))                 # -scale * 4^i * H, quadrupled from ring to ring
     for i, rs in enumerate(rsizes):
         cur = first[i]
         for j in range(rs):
@@ -122,7 +136,7 @@ def parse(proof, C, H):
     off += nsb
     xs = []
     first = []
-    acc = ec.mul(h["min"], H) if h["min"] else None
+    acc = hmul(h["min"], H) if h["min"] else None
     for i in range(rings - 1):
         xb = proof[off:off + 32]
         off += 32
